@@ -13,9 +13,7 @@ HDR = ['t', 'k', 'j']
 
 
 def _keq(a, b):
-    if isinstance(a, tuple):
-        return all(cells_eq(x, y) for x, y in zip(a, b))
-    return cells_eq(a, b)
+    return cells_eq(a, b)         # element-wise for (compound) tuple keys
 
 
 def keyed(sym, op, N, dom, compound, bs=None, countfield=None, conf='include'):
@@ -140,6 +138,8 @@ def jobs(tier):
         add('distinct', N, 'O', False, bs=bs)
         add('distinct', N, 'O', False, bs=bs, countfield='n')
     add('partition', N, 'Md2', False)
+    add('partition', 2 if q else 3, 'X', False)
+    add('distinct', 2 if q else 3, 'X', False, countfield='n')
     add('partition', N, 'Od2', True)
     add('distinct', N, 'I', False, countfield='n')
     add('distinct', N, 'M', False)
